@@ -26,6 +26,7 @@ RULE = (
     "A 'stream' kind replays the law on real asyncio streams over a socketpair: the device sends its wake line and drops the link, the controller reconnects, and the device must end up with every parked command exactly once. A reconnect flag makes the application leave and re-enter the gateway context after a failed flush. A 'race' kind adds schedules: one write of the flush fails while application sends arrive (C09's scheduler, every interleaving and every position of the single fault); the last value sent per key must still be written once both nodes have woken fault-free. Non-trivial = a fault lands inside a flush that had >= 2 commands pending; distinct = distinct case JSON."
     ' Round 5: `between` events (one of every kind, enumerated) arrive between the failed flush and the retry.'
     ' Round 6: `between` also holds re-presentations of the woken node and application events (@send-req, @send-internal, @save, @reload).'
+    ' Round 8: `wake_payloads` sequences; `memstream` kind (real stream objects, the link dies with an OS error while the k-th command is written).'
 )
 ASSUMPTIONS = [
     "faults are raised by the transport's write before anything is recorded (an all-or-nothing write)",
